@@ -142,6 +142,8 @@ class C14(PropBase):
         out2 = apply_op(op, GG.to_y0(h, loose=True), case2)
         if canon(op, out) != canon(op, out2) and violation is None:
             violation = f"{op} result depends on insertion order: {out} vs {out2}"
+        if violation is None and op not in ("topological_sort", "pre"):
+            violation = GG.renamed_differs(case, canon(op, out), lambda: canon(op, apply_op(op, GG.to_y0(g), case)))
         nontrivial = bool(g["dir"] or g["bid"]) and out is not None and canon(op, out) != canon(op, g) \
             and out != sorted(case.get("S", []))
         feats = [op, f"n={len(g['nodes'])}", "cyclic" if not GG.is_acyclic(g) else "acyclic"]
